@@ -63,9 +63,42 @@ fn search_msg(pk: &[u8; 32], base: &[u8], mk_sig: &dyn Fn(&[u8]) -> [u8; 64]) ->
     last
 }
 
+/// mixed-order key A0 + T WITH a small-order, non-identity R that satisfies the cofactorless equation:
+/// R = -k*T (the T-component of -k*A), S = k*a0 (so that S*B - k*A = -k*T). Non-strict verification accepts,
+/// strict verification must refuse because R has small order although the key is not weak
+/// (added after the seeded change C09f: the strict prehashed verifier only refused R = identity).
+/// `ph` chooses whether the pure or the prehashed (dom2, context) challenge is the one that is solved.
+fn mixed_order_small_r() -> BoxedStrategy<Req> {
+    (u256_interesting(), 1usize..8, message(), any::<bool>(), super::c08::context_ok(), any::<bool>()).prop_map(|(seed, t, msg, ph, ctx, has)| {
+        let e = eddsa::expand(&seed);
+        let a0 = Sc::from_bytes_mod_order(&e.a_bytes);
+        let pk = Aff::decompress(&e.pk).unwrap().add(&torsion()[t]).compress();
+        let c: Vec<u8> = if has { ctx.clone() } else { vec![] };
+        for j in 0..64u32 {
+            let mut m = msg.clone();
+            m.extend_from_slice(&j.to_le_bytes());
+            for rt in 1..8usize {
+                let r_bytes = torsion()[rt].compress();
+                let dom: Vec<u8> = if ph { eddsa::dom2(1, &c) } else { vec![] };
+                let mh: Vec<u8> = if ph { eddsa::sha512(&[&m]).to_vec() } else { m.clone() };
+                let k = Sc::from_bytes_mod_order_wide(&eddsa::sha512(&[&dom, &r_bytes, &pk, &mh]));
+                if torsion()[t].mul(&k.0).neg() == torsion()[rt] {
+                    let s = k.mul(&a0);
+                    let mut sig = [0u8; 64];
+                    sig[..32].copy_from_slice(&r_bytes);
+                    sig[32..].copy_from_slice(&s.to_bytes());
+                    return req(&pk, m, &sig, ctx.clone(), has);
+                }
+            }
+        }
+        req(&pk, msg, &[0u8; 64], ctx, has)
+    }).boxed()
+}
+
 pub fn strategy() -> BoxedStrategy<Req> {
     let nt = torsion_encodings().len();
     prop_oneof![
+        3 => mixed_order_small_r(),
         // honest
         2 => (u256_interesting(), message()).prop_map(|(seed, m)| { let e = eddsa::expand(&seed); let s = eddsa::sign(&seed, &m); req(&e.pk, m, &s, vec![], false) }),
         // S + k*l, S = l, high bits
